@@ -177,12 +177,21 @@ func (f *frame) lookupVar(name string, b *ssa.BasicBlock, phiOverride map[*ssa.P
 }
 
 func (f *frame) lookupVar0(name string, b *ssa.BasicBlock, phiOverride map[*ssa.Phi]Val) (Val, bool) {
+	// rangeindex_up: the index of the next enclosing range loop (the nearest one is "rangeindex")
+	skip := 0
+	if name == "rangeindex_up" {
+		name, skip = "rangeindex", 1
+	}
 	for _, in := range b.Instrs {
 		phi, ok := in.(*ssa.Phi)
 		if !ok {
 			break
 		}
 		if phi.Comment == name {
+			if skip > 0 {
+				skip--
+				continue
+			}
 			if v, ok := phiOverride[phi]; ok {
 				return v, true
 			}
@@ -217,12 +226,19 @@ func (f *frame) lookupVar0(name string, b *ssa.BasicBlock, phiOverride map[*ssa.
 				}
 			case *ssa.Phi:
 				if in.Comment == name {
+					if skip > 0 {
+						skip--
+						continue
+					}
 					if v, ok := f.vals[in]; ok {
 						return v, true
 					}
 				}
 			}
 		}
+	}
+	if skip > 0 {
+		return Val{}, false
 	}
 	for i, p := range f.fn.Params {
 		if p.Name() == name {
@@ -717,30 +733,39 @@ func (f *frame) rangeIndexGuard(h *ssa.BasicBlock, ls *LoopSpec) {
 	if ls == nil {
 		return
 	}
-	has := false
+	nrange := 0
 	for h2, body := range f.loopBody {
 		if h2 != h && !body[h] {
 			continue // neither this loop nor one that encloses it
 		}
 		for _, in := range h2.Instrs {
 			if phi, ok := in.(*ssa.Phi); ok && phi.Comment == "rangeindex" {
-				has = true
+				nrange++
 			}
 		}
 	}
-	if has {
-		return
-	}
-	uses := func(x ast.Expr) bool {
+	usesName := func(x ast.Expr, name string) bool {
 		found := false
 		ast.Inspect(x, func(n ast.Node) bool {
-			if id, ok := n.(*ast.Ident); ok && id.Name == "rangeindex" {
+			if id, ok := n.(*ast.Ident); ok && id.Name == name {
 				found = true
 			}
 			return !found
 		})
 		return found
 	}
+	if nrange < 2 {
+		// rangeindex_up names the index of the next enclosing range loop
+		for _, inv := range ls.Invariants {
+			if usesName(inv.Expr, "rangeindex_up") {
+				panic(specErr("loop %d of %s mentions rangeindex_up but is not a range loop inside a range loop", ls.Ordinal, f.fn.Name()))
+			}
+		}
+	}
+	if nrange > 0 {
+		return
+	}
+	uses := func(x ast.Expr) bool { return usesName(x, "rangeindex") }
 	for _, inv := range ls.Invariants {
 		if uses(inv.Expr) {
 			panic(specErr("loop %d of %s is not a range loop but its invariant mentions rangeindex", ls.Ordinal, f.fn.Name()))
